@@ -177,12 +177,47 @@ func dischargeAll(x *Exec, obls []*Obligation, timeout time.Duration, all bool) 
 // buildQuery applies the state-hint instantiation of quantifiers.
 var globalFacts []*Term
 
+// relevantGlobals keeps the global facts that share an uninterpreted symbol with the obligation.
+func relevantGlobals(ob *Obligation) []*Term {
+	if len(globalFacts) == 0 {
+		return nil
+	}
+	syms := map[string]bool{}
+	add := func(t *Term) {
+		t.walk(func(s *Term) {
+			if s.Op == "app" {
+				syms[s.Name] = true
+			}
+		})
+	}
+	for _, a := range ob.Assume {
+		add(a)
+	}
+	if ob.Goal != nil {
+		add(ob.Goal)
+	}
+	var out []*Term
+	for _, g := range globalFacts {
+		hit := false
+		g.walk(func(s *Term) {
+			if s.Op == "app" && !builtinApps[s.Name] && syms[s.Name] {
+				hit = true
+			}
+		})
+		if hit {
+			out = append(out, g)
+		}
+	}
+	return out
+}
+
 func buildQuery(ob *Obligation) *Query {
+	gf := relevantGlobals(ob)
 	if len(ob.Hints) == 0 || ob.Canary || ob.Cover {
-		return &Query{Assume: append(append([]*Term{}, globalFacts...), ob.Assume...), Goal: ob.Goal}
+		return &Query{Assume: append(append([]*Term{}, gf...), ob.Assume...), Goal: ob.Goal}
 	}
 	q := &Query{Goal: instQuant(ob.Goal, false, ob.Hints, 0)}
-	q.Assume = append(q.Assume, globalFacts...)
+	q.Assume = append(q.Assume, gf...)
 	for _, a := range ob.Assume {
 		q.Assume = append(q.Assume, instQuant(a, true, ob.Hints, 0))
 	}
